@@ -677,8 +677,10 @@ class NatVC:
             raise SkipCase()
         ih = None
         if self.crosscheck:
-            ih = self._interp_do(lambda: self.I.instantiate(self.I.get_class(module, clsname),
-                                                            _to_interp(args), _to_interp(kwargs)),
+            # (constructor arguments are registered like call arguments: an array the constructor keeps a reference to and the
+            # caller later changes through vc.setitem is the same tensor on the interpreter side)
+            i_args, i_kw = self._iargs(tuple(args)), self._iargs(dict(kwargs))
+            ih = self._interp_do(lambda: self.I.instantiate(self.I.get_class(module, clsname), i_args, i_kw),
                                  f"{clsname}.__init__")
         return Handle(nat, ih)
 
